@@ -146,6 +146,8 @@ var pairCatalogue = []FieldPair{
 	{"convertible", "Leaf2", "Leaf", "field"}, // identical underlying struct types: convertible, not assignable
 	{"convertible", "*Leaf2", "*Leaf", "field"},
 	{"convertible", "[2]int", "[]int", "field"},
+	{"convertible", "*error", "*ErrAlias", "field"}, // predeclared named type behind a pointer
+	{"convertible", "*ErrAlias", "*error", "field"},
 	{"stringer", "string", "ext.Level", "field"},
 	{"stringer", "string", "ext.Code", "field"},  // pointer-receiver String
 	{"stringer", "string", "*ext.Code", "field"}, // pointer to it
@@ -174,6 +176,7 @@ var pairCatalogue = []FieldPair{
 	{"slice", "[]map[string]int", "[]map[string]int", "field"},
 	{"slice", "[]Inner2", "[]Inner1", "field"},
 	{"slice", "[]error", "[]error", "field"},
+	{"slice", "[]error", "[]ErrAlias", "field"},
 	{"slice", "[]ext2.Item", "[]ext2.Item", "field"},
 	{"slice", "[]byte", "[]byte", "field"},
 	{"slice", "[]Namer", "[]ext.Person", "field"},
@@ -219,6 +222,7 @@ type Status int
 type IntList []int
 type Namer interface{ Name() string }
 type MyErr struct{ Msg string }
+type ErrAlias error
 
 func (e *MyErr) Error() string { return e.Msg }
 
